@@ -141,6 +141,58 @@ Proof.
     rewrite IH by (assumption || lia). reflexivity.
 Qed.
 
+(* a receiver with a smaller MTU sees only a prefix of the datagram: it still extracts nothing but
+   fragments that were put there (a cut-off fragment fails the "chunk fits" test and ends the loop) *)
+Definition hdr_of (f : frag) : list byte :=
+  le32 (f_magic f) ++ le32 (f_sex f) ++ le32 (f_id f) ++ le32 (f_off f)
+  ++ le32 (lenN (f_data f)) ++ le32 (f_total f).
+
+Lemma enc_frag_hdr f : enc_frag f = hdr_of f ++ f_data f.
+Proof. unfold enc_frag, hdr_of. now rewrite <- !app_assoc. Qed.
+
+Lemma lenN_hdr_of f : lenN (hdr_of f) = FHS.
+Proof. unfold hdr_of. rewrite !lenN_app, !lenN_le32, FHS_val. reflexivity. Qed.
+
+Lemma parse_cut fuel rc f d' :
+  wire_ok f -> lenN d' < lenN (f_data f) -> parse fuel rc (hdr_of f ++ d') = [].
+Proof.
+  intros (Hm & Hs & Hi & Ho & Ht & Hd) Hshort. destruct fuel as [|fuel]; [reflexivity|].
+  cbn [parse].
+  destruct (FHS <=? lenN (hdr_of f ++ d')); [|reflexivity].
+  unfold hdr_of. rewrite <- !app_assoc.
+  rewrite rd32_le32. rewrite rd32_le32. rewrite rd32_le32. rewrite rd32_le32. rewrite rd32_le32. rewrite rd32_le32.
+  rewrite !u32_small by assumption. unfold frag_ok.
+  assert (HC : (lenN (f_data f) <=? lenN d') = false) by (apply N.leb_gt; exact Hshort).
+  rewrite HC, andb_false_r. reflexivity.
+Qed.
+
+Lemma parse_short fuel rc bs : lenN bs < FHS -> parse fuel rc bs = [].
+Proof.
+  intros H. destruct fuel as [|fuel]; [reflexivity|]. cbn [parse].
+  assert (E : (FHS <=? lenN bs) = false) by (apply N.leb_gt; exact H). now rewrite E.
+Qed.
+
+Lemma parse_truncated_Forall (P : frag -> Prop) rc fs : forall fuel k,
+  Forall wire_ok fs -> Forall P fs -> Forall P (parse fuel rc (takeN k (enc_frags fs))).
+Proof.
+  induction fs as [|f fs IH]; intros fuel k HW HP.
+  - unfold takeN. cbn [enc_frags map concat]. rewrite firstn_nil, parse_nil. constructor.
+  - inversion HW as [|? ? Hf Hfs]; subst. inversion HP as [|? ? Pf Pfs]; subst.
+    rewrite enc_frags_cons.
+    destruct (N.le_gt_cases (lenN (enc_frag f)) k) as [Hk|Hk].
+    + rewrite takeN_app_ge by exact Hk.
+      destruct fuel as [|fuel]; [constructor|].
+      rewrite parse_step by exact Hf.
+      destruct ((f_magic f =? rc_magic rc) && sex_ok rc (f_sex f)); [|constructor].
+      destruct (f_total f <=? rc_max_in rc); [constructor; [exact Pf|]|]; now apply IH.
+    + rewrite takeN_app_le by lia.
+      rewrite lenN_enc_frag in Hk.
+      destruct (N.lt_ge_cases k FHS) as [Hk2|Hk2].
+      * rewrite parse_short; [constructor|]. rewrite lenN_takeN. lia.
+      * rewrite enc_frag_hdr. rewrite takeN_app_ge by (rewrite lenN_hdr_of; exact Hk2).
+        rewrite parse_cut; [constructor|exact Hf|]. rewrite lenN_takeN, lenN_hdr_of. lia.
+Qed.
+
 (* a datagram that does not start with our magic (or is too short to have one) yields no fragment *)
 Definition foreign (magic : N) (p : packet) : Prop := first_word_is magic p = false.
 
